@@ -79,3 +79,17 @@ def zfp_unsigned_clamp(line, detail):
     data = [int.from_bytes(bytes.fromhex(x), "little") for x in f["data"].split(".")]
     dec = [int.from_bytes(bytes.fromhex(x), "little") for x in o.get("dec", "").split(".") if x]
     return len(data) == len(dec) and any(d > top for d in data) and all(min(d, top) == e for d, e in zip(data, dec))
+
+
+def pe_erase_then_write(line, detail):
+    """C20, `fault_sweep_pe` (the sharding partial encoder under `experimental_partial_encoding`): the only requirement
+    missed is retry convergence (`retry_diff`/`rdk`), nothing panicked, no fault was swallowed, and EVERY fault position after
+    which the retry ends elsewhere is a write of a shard that the same call erased just before (`rdk` items `ew<key>`)"""
+    if " fault_sweep_pe " not in line or " -> " not in line:
+        return False
+    impl = _fields(line.split(" -> ", 1)[1]); model = _fields(detail)
+    bad = sorted(k for k in model if k in impl and model[k] != impl[k])
+    if bad != ["rdk", "retry_diff"] or impl.get("panics") != "0" or impl.get("ok_with_fault") != "0":
+        return False
+    items = impl.get("rdk", "-").split(",")
+    return all(i.startswith("ew") for i in items)
